@@ -1677,6 +1677,40 @@ package graphql
 //@   loop 1 ensures calls("typeFromAST") == atloop(1, calls("typeFromAST")) + 1 && lastresult("typeFromAST", 1) == nil && !isnil(lastresult("typeFromAST")) ==> calls("isTypeSubTypeOf") == atloop(1, calls("isTypeSubTypeOf")) + 1
 //@   at call reportError: assert arg0 == context && len(arg2) == 2 && typeis(arg2[0], "*ast.VariableDefinition") && as(arg2[0], "*ast.VariableDefinition") == varDef && typeis(arg2[1], "*ast.Variable") && as(arg2[1], "*ast.Variable") == usage.Node
 
+// ProvidedNonNullArguments: on a field (directive) whose definition is known, every defined argument of a
+// non-null type for which no argument of that name is written is reported once, located at the field (directive);
+// arguments that are written, and nullable ones, are not reported.
+//@ func ValidationContext.FieldDef
+//@   trusted
+//@   assigns nothing
+//@ func ValidationContext.Directive
+//@   trusted
+//@   assigns nothing
+//@ func ProvidedNonNullArgumentsRule$1
+//@   props C02 C18
+//@   nosafety
+//@   ensures !typeis(p.Node, "*ast.Field") ==> calls("reportError") == 0
+//@   ensures calls("FieldDef") == 1 && lastresult("FieldDef") == nil ==> calls("reportError") == 0 && result0 == visitor.ActionSkip
+//@   loop 1 over argASTs
+//@   loop 1 invariant fresh(argASTMap)
+//@   loop 1 ensures arg.Name != nil ==> has(argASTMap, arg.Name.Value) && argASTMap[arg.Name.Value] == arg
+//@   loop 2 over lastresult("FieldDef").Args
+//@   loop 2 ensures (!has(argASTMap, argDef.PrivateName) || argASTMap[argDef.PrivateName] == nil) && typeis(argDef.Type, "*graphql.NonNull") ==> calls("reportError") == atloop(2, calls("reportError")) + 1
+//@   loop 2 ensures (has(argASTMap, argDef.PrivateName) && argASTMap[argDef.PrivateName] != nil) || !typeis(argDef.Type, "*graphql.NonNull") ==> calls("reportError") == atloop(2, calls("reportError"))
+//@   at call reportError: assert arg0 == context && len(arg2) == 1 && typeis(arg2[0], "*ast.Field") && as(arg2[0], "*ast.Field") == fieldAST
+//@ func ProvidedNonNullArgumentsRule$2
+//@   props C02 C18
+//@   nosafety
+//@   ensures !typeis(p.Node, "*ast.Directive") ==> calls("reportError") == 0
+//@   ensures calls("Directive") == 1 && lastresult("Directive") == nil ==> calls("reportError") == 0 && result0 == visitor.ActionSkip
+//@   loop 1 over argASTs
+//@   loop 1 invariant fresh(argASTMap)
+//@   loop 1 ensures arg.Name != nil ==> has(argASTMap, arg.Name.Value) && argASTMap[arg.Name.Value] == arg
+//@   loop 2 over lastresult("Directive").Args
+//@   loop 2 ensures (!has(argASTMap, argDef.PrivateName) || argASTMap[argDef.PrivateName] == nil) && typeis(argDef.Type, "*graphql.NonNull") ==> calls("reportError") == atloop(2, calls("reportError")) + 1
+//@   loop 2 ensures (has(argASTMap, argDef.PrivateName) && argASTMap[argDef.PrivateName] != nil) || !typeis(argDef.Type, "*graphql.NonNull") ==> calls("reportError") == atloop(2, calls("reportError"))
+//@   at call reportError: assert arg0 == context && len(arg2) == 1 && typeis(arg2[0], "*ast.Directive") && as(arg2[0], "*ast.Directive") == directiveAST
+
 // VariablesAreInputTypes: a variable definition is reported exactly when its type is known and not an input
 // type; the error is located at the type reference.
 //@ func VariablesAreInputTypesRule$1
